@@ -17,6 +17,7 @@ From NV Require Import Proofs.RuleChecksSpacing Proofs.RuleChecksSpacing3 Proofs
 From NV Require Import Model.CounterBase Gen.MoreChecks Proofs.MoreChecksProofs.
 From NV Require Import Model.NameBase Gen.NameChecks Proofs.NameChecksProofs Proofs.NameChecksLift.
 From NV Require Import Model.PreprocBase Gen.PreprocChecks Proofs.PreprocProofs.
+From NV Require Import Model.PreprocBase2 Gen.PreprocChecks2 Proofs.PreprocProofs2.
 From NV Require Import Gen.Counters Model.ScopeBase Gen.ScopeOps Model.ScopeTrace Model.ScopeBody Model.CounterTrace Proofs.ScopeTraceProofs Proofs.CounterProofs.
 Local Open Scope Z_scope.
 
@@ -32,7 +33,7 @@ Definition C02_statement (program : Type) (wf : program -> Prop) (render : progr
 
 Definition proved_operators : list string :=
   ["S05"; "L01"; "S03"; "S04"; "S07"; "S08"; "W01"; "W03"; "W04"; "W05"; "W06"; "W07"; "W08"; "W09"; "W10"; "W12"; "W13"; "W14"; "W15"; "W17";
-   "T01"; "T02"; "T03"; "T04"; "S01"; "S02"; "S06"; "S11"; "O07"; "N01"; "N02"; "K01"; "K02"; "K03"; "D04"; "F03"; "F04"; "F05"; "P04"; "P05"; "P06"; "P09"; "P10"; "P11"; "P12"]%string.
+   "T01"; "T02"; "T03"; "T04"; "S01"; "S02"; "S06"; "S11"; "O07"; "N01"; "N02"; "K01"; "K02"; "K03"; "D04"; "F03"; "F04"; "F05"; "P04"; "P05"; "P06"; "P09"; "P10"; "P11"; "P12"; "P01"; "P02"; "P03"; "P07"; "P08"]%string.
 
 (* ---- S05 ternary *)
 Theorem C02_partial_S05 : forall toks scope v i t,
@@ -397,6 +398,71 @@ Theorem C02_partial_P04 : forall toks glob pindent h E, peek toks (skip_ws toks 
   forall t, peek toks (name_pos toks + 1) = Some t -> skip_ws toks (name_pos toks + 1) - (name_pos toks + 1) > 1 -> In (at_tok ppi_c_consec t) E.
 Proof. exact ppi_consec_reported. Qed.
 Print Assumptions C02_partial_P04.
+
+(* ---- CheckPreprocessorInclude (Gen/PreprocChecks2.v), whenever the check ends normally *)
+(* the EXACT list of its diagnostics: nothing unless the line is an include directive, else the start-of-file part and the file part *)
+Theorem C02_partial_preproc_include_exact : forall toks hist allowed E, check_preproc_include toks hist allowed = Ok E ->
+  E = if is_include toks then inc_start_part toks hist allowed ++ file_part toks (inc_name_pos toks) else [].
+Proof. exact ppn_exact. Qed.
+Print Assumptions C02_partial_preproc_include_exact.
+(* P08: an include when includes are no longer allowed or after a statement that is not a comment, an empty line or a directive
+   (hist = context.history, allowed = scope.include_allowed: from the trace) *)
+Theorem C02_partial_P08_given_trace : forall toks hist allowed E h, check_preproc_include toks hist allowed = Ok E ->
+  is_include toks = true -> peek toks (skip_ws toks 0) = Some h -> ppn_in_start hist allowed = false -> In (at_tok ppn_c_start h) E.
+Proof. exact ppn_start_reported. Qed.
+Print Assumptions C02_partial_P08_given_trace.
+Theorem C02_partial_P08_history : forall hist allowed r, In r hist -> str_in r [ppn_hd1; ppn_hd2; ppn_hd3] = false -> ppn_in_start hist allowed = false.
+Proof. exact ppn_in_start_false. Qed.
+Print Assumptions C02_partial_P08_history.
+(* P07: "file" whose extension (os.path.splitext) is not .h; <file> whose last tokens are not `.` `h` *)
+Theorem C02_partial_P07_string : forall toks hist allowed E ts, check_preproc_include toks hist allowed = Ok E ->
+  is_include toks = true -> peek toks (file_pos toks (inc_name_pos toks)) = Some ts -> str_eqb (t_type ts) ppn_string = true ->
+  string_bad ts = true -> In (at_tok ppn_c_header ts) E.
+Proof. exact ppn_header_string_reported. Qed.
+Print Assumptions C02_partial_P07_string.
+Theorem C02_partial_P07_angle : forall toks hist allowed E less i3, check_preproc_include toks hist allowed = Ok E ->
+  is_include toks = true -> peek toks (file_pos toks (inc_name_pos toks)) = Some less -> str_eqb (t_type less) ppn_string = false ->
+  more_pos toks (inc_name_pos toks) = Some i3 -> angle_bad toks i3 = true -> In (at_tok ppn_c_header2 less) E.
+Proof. exact ppn_header_angle_reported. Qed.
+Print Assumptions C02_partial_P07_angle.
+
+(* ---- CheckPreprocessorDefine (Gen/PreprocChecks2.v), whenever the check ends normally; skip = context.preproc.skip_define *)
+Theorem C02_partial_preproc_define_exact : forall toks skip E, check_preproc_define toks skip = Ok E ->
+  if is_define toks
+  then exists tn, peek toks (def_name_pos toks) = Some tn /\
+         E = name_part tn ++ func_part toks (def_name_pos toks + 1) ++
+             (if skip then [] else value_part toks (value_pos toks (def_name_pos toks + 1)))
+  else E = [].
+Proof. exact ppd_exact. Qed.
+Print Assumptions C02_partial_preproc_define_exact.
+(* P01: a macro name that is not upper-case (str.isupper) *)
+Theorem C02_partial_P01 : forall toks skip E tn, check_preproc_define toks skip = Ok E -> is_define toks = true ->
+  peek toks (def_name_pos toks) = Some tn -> forall w, t_val tn = Some w -> py_isupper_ascii w = false -> In (at_tok ppd_c_name tn) E.
+Proof. exact ppd_name_reported. Qed.
+Print Assumptions C02_partial_P01.
+(* P02: a macro with parameters *)
+Theorem C02_partial_P02 : forall toks skip E tn, check_preproc_define toks skip = Ok E -> is_define toks = true ->
+  peek toks (def_name_pos toks) = Some tn ->
+  forall t, peek toks (def_name_pos toks + 1) = Some t -> str_eqb (t_type t) ppd_lpar = true -> In (at_tok ppd_c_func t) E.
+Proof. exact ppd_func_reported. Qed.
+Print Assumptions C02_partial_P02.
+(* P03: a value that is more than one constant: everything value_part lists is reported, in particular a further token after the
+   constant, and a value that does not begin with a constant, a name or a sign *)
+Theorem C02_partial_P03 : forall toks skip E tn, check_preproc_define toks skip = Ok E -> is_define toks = true ->
+  peek toks (def_name_pos toks) = Some tn -> skip = false ->
+  forall e, In e (value_part toks (value_pos toks (def_name_pos toks + 1))) -> In e E.
+Proof. exact ppd_value_reported. Qed.
+Print Assumptions C02_partial_P03.
+Theorem C02_partial_P03_extra_token : forall toks i5 t, truthy (checkl toks i5 [ppd_minus; ppd_plus; ppd_bnot]) = false ->
+  truthy (checkl toks i5 [ppd_const2; ppd_ident2; ppd_string; ppd_charc]) = true ->
+  peek toks (skip_ws_c toks (i5 + 1)) = Some t -> str_eqb (t_type t) ppd_nl = false -> In (at_tok ppd_c_const2 t) (value_part toks i5).
+Proof. exact value_part_extra_token. Qed.
+Print Assumptions C02_partial_P03_extra_token.
+Theorem C02_partial_P03_not_constant : forall toks i5 t, truthy (checkl toks i5 [ppd_minus; ppd_plus; ppd_bnot]) = false ->
+  truthy (checkl toks i5 [ppd_const2; ppd_ident2; ppd_string; ppd_charc]) = false ->
+  peek toks (skip_ws_c toks i5) = Some t -> str_eqb (t_type t) ppd_nl = false -> In (at_tok ppd_c_const2 t) (value_part toks i5).
+Proof. exact value_part_not_constant. Qed.
+Print Assumptions C02_partial_P03_not_constant.
 
 (* ---- known findings, as far as the modelled checks show them *)
 (* W05 on a line holding a single token (`    {`): the model of CheckSpacing prints SPACE_EMPTY_LINE and no SPACE_REPLACE_TAB
